@@ -49,7 +49,12 @@ func Alphabet(names ...string) []Letter {
 	all := map[string]Letter{}
 	reg := func(l Letter) { all[l.Name] = l }
 	// next-hops
-	reg(Letter{Name: "ADD nh1@D a", NI: D, Op: add, Entry: ribx.NHEntry(1, "1.1.1.1")})
+	// payload "a" sets more fields than payload "b": replacing a by b must drop them (and b by a must add them)
+	rich := ribx.NHEntry(1, "1.1.1.1")
+	rich.NextHop.MacAddress = ribx.S("02:00:00:00:00:01")
+	rich.NextHop.InterfaceRef = &aftpb.Afts_NextHop_InterfaceRef{Interface: ribx.S("eth0"), Subinterface: ribx.U(3)}
+	rich.NextHop.PushedMplsLabelStack = []*aftpb.Afts_NextHop_PushedMplsLabelStackUnion{{PushedMplsLabelStackUint64: 100}, {PushedMplsLabelStackUint64: 200}}
+	reg(Letter{Name: "ADD nh1@D a", NI: D, Op: add, Entry: rich})
 	reg(Letter{Name: "ADD nh1@D b", NI: D, Op: add, Entry: ribx.NHEntry(1, "2.2.2.2")})
 	reg(Letter{Name: "REPLACE nh1@D b", NI: D, Op: rep, Entry: ribx.NHEntry(1, "2.2.2.2")})
 	reg(Letter{Name: "DELETE nh1@D", NI: D, Op: del, Entry: ribx.NHEntry(1, "")})
